@@ -1,11 +1,28 @@
 """C03 — the graph does not depend on the order of the lines.
 
-Oracle (real library only): for a valid document (props/_docgen.py, incl. several O/U lines sharing an identifier)
-every permutation of its lines (all n! for n <= 6 quick / <= 7 thorough, a seeded sample beyond) is loaded with
-Gfa(list_of_lines) and observed with lib.obs (version, sorted written lines with an L line printed in canonical
-direction, identifier namespace, virtual lines, every back-reference collection of every line, ownership).  The
-observation must equal that of the document's own order; the outcome class (loaded / exception class) must be
-the same too; and, the document being closed, no virtual line may remain.
+Oracle (real library only): for a valid document every permutation of its lines (all n! for n <= 6 quick /
+<= 7 thorough, a seeded sample beyond) is loaded with Gfa(list_of_lines) and observed with lib.obs (version,
+sorted written lines with an L line printed in canonical direction, identifier namespace, virtual lines, every
+back-reference collection of every line, ownership) and with ref_obs, the REFERENCE TARGETS of every line:
+  * for every reference field (L/C from_segment,to_segment; P segment_names; E/G sid1,sid2; F sid; O/U items)
+    the written form of the line(s) referred to, with the orientation of the reference where it has one;
+  * for a path also path.links, the oriented links its steps resolve to, *with the orientation flag* (this is
+    what captured_path / captured_edges and the GFA2 conversion of the path read);
+  * a target that is not a line object (unresolved name), is a placeholder, or is not one of the lines of the Gfa
+    (stale object left behind by a substitution) is marked as such.
+  Links are described in the direction norm_line prints them (from/to of a link stored in the other direction
+  are swapped, its orientation in path.links is inverted), so the description does not depend on which of its
+  two spellings arrived first; a link equal to its own complement (hairpin ends x+ -> x- with overlap `*` or a
+  self-complementary CIGAR) has only one spelling and its flag is compared as stored.
+The observation must equal that of the document's own order; the outcome class (loaded / exception class) must
+be the same too; and, the document being closed, no virtual line may remain.
+
+Documents: two thirds from props/_docgen.py (incl. several O/U lines sharing an identifier), one third from
+gen_path_doc below: GFA1 documents built around a path whose steps are hairpins, self loops or ordinary steps,
+each with exactly one link spelled in the direction of the step or as its complement, with overlap `*`, a
+self-complementary CIGAR or an asymmetric CIGAR, the path stating the overlaps, an overlap for a `*` link, or a
+single `*`: every way a step can match its link (directly, as the complement, both ways at once), and since all
+orders are enumerated, every arrival order of the path, its links and its segments.  Plus the TARGETED list.
 
 Outside the equality claim (DESIGN §6 C03; the meaning of such documents is inherently first-arrival-wins), so
 the oracle returns [] for them: a link given twice (same or complement form) with different tags; a path step
@@ -14,11 +31,20 @@ permutation (their items are concatenated in arrival order); the items of U line
 the order of tags inside a written line is ignored (a merged group collects its tags in arrival order); tags of
 the delayed-parsing datatypes (B, J, H) are compared by value (level-0 lazy spelling is C18's open finding).
 
+FINDING on the unchanged library, reported under its own signature
+`order-dependent-refs[orientation-of-a-link-used-by-two-path-steps]`: when two path steps (of one path or of
+two) use the same hairpin link x+ -> x- in a way that matches it both directly and as complement, and both
+steps arrive before the link, the second step finds the placeholder link created by the first and stores it
+with orientation `-`; the arrival of the real link then inverts both, leaving `-` and `+`, while with the link
+first both are `-` (S a ACGT / L a + a - 2M ID:Z:hp / P p a+,a- * / P q a+,a- *: to_gfa2 writes `O q a+ hp- a-`
+or `O q a+ hp+ a-` depending on the order).  Every other difference of reference targets has the signature
+`order-dependent-refs`.
+
 NOT CHECKED:
   * that a document rejected in *every* order should have been accepted (C01's business): only a difference of
     outcome between orders is reported;
-  * the orientation flags of path.links and object identity of reference targets (C02/C12 walk those);
-    here targets are observed through the written text and the back-reference collections;
+  * captured_path / induced_set of GFA2 groups (computed on demand from the items, which are observed);
+  * circular GFA1 paths (as many overlaps as segments);
   * entry points other than the list of lines, and rgfa dialect;
   * documents with custom record types P/C/L, tag-like sequences, header tags repeated with different datatypes.
 """
@@ -29,9 +55,12 @@ from harness.props import _docgen as D
 ID = "C03"
 RULE = ("valid GFA1/GFA2 documents of 3-6 lines (quick; 7 thorough, sampled orders beyond) from the grammar-directed "
         "generator (forward references, paths over links in either complement form, nested and multi-line groups, "
-        "version-deciding lines mixed with queued L/C/P/custom lines, header VN) plus a fixed list of targeted "
-        "documents; every permutation x validation level / explicit or inferred version. Non-trivial: at least one "
-        "referencing record (L,C,P,E,G,F,O,U) and >= 3 lines.")
+        "version-deciding lines mixed with queued L/C/P/custom lines, header VN), every third one a GFA1 document built "
+        "around a path over hairpin / self-loop / ordinary links in either spelling with `*`, self-complementary or "
+        "asymmetric overlaps, plus a fixed list of targeted documents; every permutation x validation level / explicit "
+        "or inferred version; observed: text, names, placeholders, back-references and the reference targets of every "
+        "line incl. the oriented links of a path. Non-trivial: at least one referencing record (L,C,P,E,G,F,O,U) "
+        "and >= 3 lines.")
 CASE_TIMEOUT = 120
 
 TARGETED = [
